@@ -308,6 +308,14 @@ func init() {
 		"4", "42"})
 }
 
+func init() {
+	// every alias of the web Mercator definition against the ESRI text of the same CRS, off the equator
+	for _, n := range []string{"EPSG:3785", "GOOGLE", "EPSG:900913", "EPSG:102113"} {
+		pair2Corpus = append(pair2Corpus, [4]string{n, pair2Corpus[0][1], "-71", "-42"})
+	}
+	pair2Corpus = append(pair2Corpus, [4]string{"WGS84", pair2Corpus[2][1], "-71", "-42"})
+}
+
 var eqCorpus = [][2]string{
 	{"+proj=longlat +a=6378137 +rf=298.25 +towgs84=1,2,3", "+proj=longlat +a=6378137 +rf=298.25 +towgs84=1,2,3,0,0,0,0"},
 	{"+proj=longlat +a=6378137 +rf=298.25 +towgs84=1,2,3", "+proj=longlat +a=6378137 +rf=298.25 +towgs84=1,2,3,1,1,1,1"},
@@ -369,6 +377,16 @@ func gen(seed uint64, tier string) {
 	r := vproto.NewRng(vproto.NewRng(seed).U64())
 	for _, n := range regNames {
 		fmt.Fprintf(w, "reg %s\n", n)
+	}
+	for i := 0; i < 8; i++ {
+		fmt.Fprintf(w, "regalias %d\n", i)
+	}
+	fmt.Fprintf(w, "histall 1\n")
+	fmt.Fprintf(w, "histall 2\n")
+	// histories on datums used by name (7-term ones first: getDatum rewrites their terms in place)
+	for _, k := range []string{"nzgd49", "osgb36", "ire65", "rnb72", "potsdam", "ch1903", "carthage", "ggrs87", "nad83", "wgs84", "hermannskogel", "rassadiran", "s_jtsk", "beduaram", "gunung_segara", "nad27"} {
+		fmt.Fprintf(w, "hist %s geog 3\n", k)
+		fmt.Fprintf(w, "hist %s tmerc 2\n", k)
 	}
 	for _, s := range rawCorpus {
 		fmt.Fprintf(w, "raw %s\n", hx(s))
